@@ -791,9 +791,9 @@ def gen_incompr(draw, tier="quick"):
     cls = draw(st.sampled_from(["Gaussian", "Exponential"]))
     dim = 2
     return {
-        "spec": {"cls": cls, "dim": dim, "var": draw(logfloat(0.3, 3.0)), "len_scale": draw(logfloat(0.5, 2.0)), "nugget": 0.0, "rescale": None,
+        "spec": {"cls": cls, "dim": dim, "var": draw(logfloat(0.3, 3.0)), "len_scale": draw(logfloat(0.5, 2.0)), "nugget": draw(st.sampled_from([0.0, 0.0, 0.5, 2.0])), "rescale": None,
                  "anis": [1.0], "angles": [0.0], "opt": {}},
-        "mean_u": draw(st.floats(0.5, 2.0)), "mode_no": draw(st.sampled_from([64, 256])),
+        "mean_u": draw(st.one_of(st.floats(0.5, 2.0), st.sampled_from([3.0, 0.25]))), "mode_no": draw(st.sampled_from([64, 256])),
         "lag": [draw(st.floats(-1.0, 1.0)), draw(st.floats(-1.0, 1.0))],
         "seed": draw(st.integers(0, 2**31 - 1)), "seed2": draw(st.integers(0, 2**31 - 1)),
         "nseeds": 300 if tier == "quick" else 2000,
@@ -832,11 +832,15 @@ def check_incompr(case, rec):
         st_ = Stat()
         mean = F.mean(axis=0)
         G = F - np.array([u, 0.0])[None, :, None]
+        nug = float(spec["nugget"])
         for i in range(2):
-            st_.z(f"mean[u_{i}]", float(mean[i].mean()), u if i == 0 else 0.0, math.sqrt(want0[i, i] / (2 * S)))
+            st_.z(f"mean[u_{i}]", float(mean[i].mean()), u if i == 0 else 0.0, math.sqrt((want0[i, i] + nug) / (2 * S)))
+            # pointwise variance of a component: its share of the model variance (times U^2) plus the nugget
+            vv = float(np.mean(G[:, i, :] ** 2))
+            st_.z(f"var[u_{i}]", vv, want0[i, i] + nug, (want0[i, i] + nug) * math.sqrt(2.0 * (1 + 2.0 / N) / (2 * S)), bias=2e-3 * u * u * spec["var"])
             for j in range(2):
                 emp = float(np.mean(G[:, i, 0] * G[:, j, 1]))
-                se = math.sqrt((want0[i, i] * want0[j, j] + want[i, j] ** 2) * (1 + 2.0 / N) / S)
+                se = math.sqrt(((want0[i, i] + nug) * (want0[j, j] + nug) + want[i, j] ** 2) * (1 + 2.0 / N) / S)
                 st_.z(f"cov[u_{i}(x),u_{j}(x+h)]", emp, want[i, j], se, bias=2e-3 * u * u * spec["var"])
         return st_
 
